@@ -365,7 +365,10 @@ Section Spec.
         \/ a = ASkipped /\ ab = true /\ r_cl s' = r_cl s /\ (In (c_uid c) uids \/ c_owner c = ONone)
         \/ a = ASkipped /\ ab = true /\ detached (r_cl s) (r_cl s') i (c_uid c)
         \/ a = ASucceeded /\ ab = false /\ r_cl s' = r_cl s /\ (dry = true \/ fo (r_cl s) i = None)
-        \/ a = ASucceeded /\ ab = false /\ deleted (r_cl s) (r_cl s') i ).
+        \/ a = ASucceeded /\ ab = false /\ deleted (r_cl s) (r_cl s') i
+        (* accepted, but a finalizer holds the object: nothing changes in the cluster *)
+        \/ a = ASucceeded /\ ab = false /\ r_cl s' = r_cl s /\ dry = false /\ u = c_uid c /\
+           u_fin (uinfo_of sc i) = true /\ fo (r_cl s) i <> None ).
   Proof.
     cbv zeta. unfold prune_one. cbn [p_live pobj_of_live].
     destruct (prune_filters sc pl locals (r_tbl s) uids c) eqn:PF.
@@ -378,9 +381,12 @@ Section Spec.
         left. split; [left; reflexivity|]. split; reflexivity. }
       destruct (find_obj (objs (r_cl s)) (c_id c)) as [live|] eqn:EF; leaf.
       + destruct (N.eqb (c_uid live) (c_uid c)); leaf.
-        * exists ASucceeded, (c_uid c), false. eexists [_]. repeat (split; [reflexivity|]). split; [snap1|]. split; [discriminate|].
-          right; right; right; right. repeat (split; [reflexivity|]). split; [apply frame_del|].
-          unfold fo. cbn [objs]. rewrite find_obj_del, Nat.eqb_refl. reflexivity.
+        * destruct (u_fin (uinfo_of sc (c_id c))) eqn:EU; leaf.
+          -- exists ASucceeded, (c_uid c), false. eexists [_]. repeat (split; [reflexivity|]). split; [snap1|]. split; [discriminate|].
+             right; right; right; right; right. repeat (split; [reflexivity|]). unfold fo. rewrite EF. discriminate.
+          -- exists ASucceeded, (c_uid c), false. eexists [_]. repeat (split; [reflexivity|]). split; [snap1|]. split; [discriminate|].
+             right; right; right; right; left. repeat (split; [reflexivity|]). split; [apply frame_del|].
+             unfold fo. cbn [objs]. rewrite find_obj_del, Nat.eqb_refl. reflexivity.
         * exists AFailed, 0%N, false. eexists [_]. repeat (split; [reflexivity|]). split; [snap1|]. split; [discriminate|].
           left. split; [left; reflexivity|]. split; reflexivity.
       + exists ASucceeded, (c_uid c), false. eexists [_]. repeat (split; [reflexivity|]). split; [snap1|]. split; [discriminate|].
@@ -675,5 +681,102 @@ Section Spec.
     - cbn. apply Hloc; assumption.
     - apply N.le_succ_diag_r.
     - right. split; [exact EO|reflexivity].
+  Qed.
+
+  (* ---- the status cache is written by the wait machine only ------------------------------ *)
+  Ltac cch :=
+    repeat match goal with
+           | |- context [if ?b then _ else _] => destruct b
+           | |- context [match ?x with Some _ => _ | None => _ end] => destruct x
+           | |- context [match ?x with GFault => _ | GNotFound => _ | GFound _ => _ end] => destruct x
+           | |- context [match ?x with FPass => _ | FSkip => _ | FFatal => _ end] => destruct x
+           | |- context [match ?x with ONone => _ | OOurs => _ | OOther => _ end] => destruct x
+           | |- context [match ?x with DNone => _ | DClient => _ | DServer => _ end] => destruct x
+           | |- context [let '(_, _) := ?x in _] => destruct x
+           end.
+
+  Lemma cache_inv_list s : r_cache (fst (inv_list sc s)) = r_cache s.
+  Proof. unfold inv_list. destruct (faulted sc _); reflexivity. Qed.
+  Lemma cache_get_obj s i : r_cache (fst (get_obj sc s i)) = r_cache s.
+  Proof. unfold get_obj. destruct (faulted sc _); [reflexivity|]. destruct (find_obj _ _); reflexivity. Qed.
+  Lemma cache_maybe_cancel s i : r_cache (maybe_cancel sc s i) = r_cache s.
+  Proof. unfold maybe_cancel. destruct (e_cancel _); try reflexivity. destruct (Nat.eqb _ _); reflexivity. Qed.
+  Lemma cache_policy_apply_filter s i : r_cache (fst (policy_apply_filter sc s i)) = r_cache s.
+  Proof.
+    unfold policy_apply_filter. destruct (o_policy _); cbn [fst]; try reflexivity;
+      (pose proof (cache_get_obj s i) as G; destruct (get_obj sc s i) as [s1 g]; cbn [fst] in G; destruct g; exact G).
+  Qed.
+  Lemma cache_kubectl_apply s l : r_cache (fst (kubectl_apply sc s l)) = r_cache s.
+  Proof.
+    unfold kubectl_apply. cbv zeta.
+    pose proof (cache_get_obj s (l_id l)) as G. destruct (get_obj sc s (l_id l)) as [s1 g]. cbn [fst] in G.
+    destruct (ssa_mode sc); cch;
+      cbn [fst log_req emit set_cl r_cache]; rewrite ?cache_maybe_cancel; try reflexivity; exact G.
+  Qed.
+  Lemma cache_apply_one pl g s p : r_cache (apply_one sc pl g s p) = r_cache s.
+  Proof.
+    unfold apply_one. destruct (p_local p) as [l|]; [|reflexivity].
+    pose proof (cache_policy_apply_filter s (p_id p)) as P.
+    destruct (policy_apply_filter sc s (p_id p)) as [s1 f1]. cbn [fst] in P.
+    destruct (match f1 with FPass => _ | _ => _ end).
+    - pose proof (cache_kubectl_apply s1 l) as K. destruct (kubectl_apply sc s1 l) as [s2 r]. cbn [fst] in K.
+      destruct r; cbn [rec_add set_tbl ev emit r_cache]; congruence.
+    - cbn [rec_add set_tbl ev emit r_cache]. exact P.
+    - cbn [rec_add set_tbl ev emit r_cache]. exact P.
+  Qed.
+  Lemma cache_prune_one pl locals g uids s p : r_cache (prune_one sc pl locals g uids s p) = r_cache s.
+  Proof.
+    unfold prune_one. destruct (p_live p) as [c|]; [|reflexivity].
+    destruct (prune_filters sc pl locals (r_tbl s) uids c); cch;
+      cbn [rec_add set_tbl ev emit log_req set_cl add_aband r_cache]; rewrite ?cache_maybe_cancel; reflexivity.
+  Qed.
+  Lemma cache_inv_apply s ids : r_cache (fst (inv_apply sc s ids)) = r_cache s.
+  Proof. unfold inv_apply. cbv zeta. cch; reflexivity. Qed.
+  Lemma cache_inv_update s ids : r_cache (fst (inv_update sc s ids)) = r_cache s.
+  Proof. unfold inv_update. cbv zeta. cch; reflexivity. Qed.
+  Lemma cache_merge s ids : r_cache (fst (merge sc s ids)) = r_cache s.
+  Proof.
+    unfold merge. pose proof (cache_inv_list s) as L1. destruct (inv_list sc s) as [s1 r1]. cbn [fst] in L1.
+    destruct r1 as [[x|]|]; cbn [fst]; try exact L1.
+    - pose proof (cache_inv_list s1) as L2. destruct (inv_list sc s1) as [s2 r2]. cbn [fst] in L2.
+      destruct r2 as [cur0|]; cbn [fst]; [|congruence].
+      destruct (set_eqn _ _ && _); cbn [fst]; [congruence|].
+      destruct (is_dry _); cbn [fst]; [congruence|]. rewrite cache_inv_apply. congruence.
+    - destruct (is_dry _); cbn [fst]; [exact L1|]. rewrite cache_inv_apply. exact L1.
+  Qed.
+  Lemma cache_replace s ids : r_cache (fst (replace sc s ids)) = r_cache s.
+  Proof.
+    unfold replace. destruct (is_dry _); [reflexivity|].
+    pose proof (cache_inv_list s) as L1. destruct (inv_list sc s) as [s1 r1]. cbn [fst] in L1.
+    destruct r1 as [x|]; cbn [fst]; [|exact L1].
+    pose proof (cache_inv_list s1) as L2. destruct (inv_list sc s1) as [s2 r2]. cbn [fst] in L2.
+    destruct r2 as [[cur|]|]; cbn [fst]; try congruence.
+    destruct (set_eqn _ _ && _); cbn [fst]; [congruence|]. rewrite cache_inv_update. congruence.
+  Qed.
+  Lemma cache_delete_inventory s : r_cache (fst (delete_inventory sc s)) = r_cache s.
+  Proof.
+    unfold delete_inventory. pose proof (cache_inv_list s) as L1. destruct (inv_list sc s) as [s1 r1]. cbn [fst] in L1.
+    destruct r1 as [[x|]|]; cbn [fst]; try exact L1.
+    destruct (is_dry _); cbn [fst]; [exact L1|]. destruct (faulted sc FInvDelete); cbn; exact L1.
+  Qed.
+  Lemma cache_inv_set_task pl prev s : r_cache (fst (inv_set_task sc pl prev s)) = r_cache s.
+  Proof.
+    unfold inv_set_task. destruct prev as [pv|]; [|reflexivity].
+    destruct (_ && _); [apply cache_delete_inventory|apply cache_replace].
+  Qed.
+  Lemma cache_inv_add_task pl s : r_cache (fst (inv_add_task sc pl s)) = r_cache s.
+  Proof.
+    unfold inv_add_task. cbv zeta.
+    assert (M : forall s1 (b : bool), r_cache s1 = r_cache s ->
+              r_cache (fst (if b then merge sc s1 (map p_id (pl_apply pl)) else (s1, false))) = r_cache s).
+    { intros s1 b E. destruct b; cbn [fst]; [rewrite cache_merge|]; exact E. }
+    destruct (sc_inv_ns sc) as [n|]; [|apply (M s true); reflexivity].
+    destruct (find _ _) as [p|]; [|apply (M s true); reflexivity].
+    destruct (p_local p) as [l|]; [|apply (M s true); reflexivity].
+    destruct (is_dry _); [apply (M s true); reflexivity|].
+    destruct (faulted sc FNsCreate); [apply (M (log_req s (RNsCreate (p_id p)) false) false); reflexivity|].
+    destruct (find_obj _ _); [apply (M (log_req s (RNsCreate (p_id p)) false) true); reflexivity|].
+    match goal with |- context [log_req ?X (RNsCreate (p_id p)) true] => apply (M (log_req X (RNsCreate (p_id p)) true) true) end.
+    reflexivity.
   Qed.
 End Spec.
